@@ -8,6 +8,7 @@ package main
 // osmoutils.ApplyFuncIfNoError, scripted mock subscribers.
 
 import (
+	"math"
 	"errors"
 	"fmt"
 	"sort"
@@ -75,6 +76,11 @@ func (s c17Sub) run(ctx sdk.Context, kind, id string, n int64) error {
 			inner := storetypes.NewGasMeter(1000)
 			inner.ConsumeGas(1001, "scripted out of gas on a nested meter")
 		}
+		if writes%3 == 2 {
+			// the gas counter itself overflows (the only way an unlimited begin-block meter can run out)
+			ctx.GasMeter().ConsumeGas(1, "scripted gas")
+			ctx.GasMeter().ConsumeGas(math.MaxUint64, "scripted gas counter overflow")
+		}
 		ctx.GasMeter().ConsumeGas(ctx.GasMeter().Limit()+1, "scripted out of gas")
 	}
 	return nil
@@ -93,7 +99,7 @@ type c17Timer struct {
 }
 
 func runC17(c *vk.Ctx) {
-	c.R.Rule = "cases = block-time sequences (regular, jittered, multi-epoch gaps, equal times, times before the start time) over 1-6 timers with durations 1s..1 week and 1-4 scripted subscribers whose outcome at each signal (success / error / string, error or runtime panic / out-of-gas on the block's meter or on a nested tighter meter, each after 0-3 partial writes) is drawn from the seed; a quarter of the sequences also export the module and re-import it through InitGenesis at arbitrary (late) blocks; after every block the epoch infos, the hook call trace and each subscriber's key space are compared with the model. distinct_nontrivial counts distinct (#timers ticking in the block, initial-start?, multiset of subscriber outcomes in the block, block result) tuples."
+	c.R.Rule = "cases = block-time sequences (regular, jittered, multi-epoch gaps, equal times, times before the start time) over 1-6 timers with durations 1s..1 week and 1-4 scripted subscribers whose outcome at each signal (success / error / string, error or runtime panic / out-of-gas on the block's meter, on a nested tighter meter or by overflowing the gas counter, each after 0-3 partial writes) is drawn from the seed; a quarter of the sequences also export the module and re-import it through InitGenesis at arbitrary (late) blocks; after every block the epoch infos, the hook call trace and each subscriber's key space are compared with the model. distinct_nontrivial counts distinct (#timers ticking in the block, initial-start?, multiset of subscriber outcomes in the block, block result) tuples."
 	nSeq := c.N(2000, 40000)
 	nBlocks := c.N(200, 400)
 	c.Cases("sequence", nSeq, func(i int, r *vk.Rng) {
@@ -269,7 +275,8 @@ func runC17(c *vk.Ctx) {
 			if rec != nil {
 				isOOG, _ := rec.(storetypes.ErrorOutOfGas)
 				_ = isOOG
-				if _, ok := rec.(storetypes.ErrorOutOfGas); ok && oog {
+				_, isOverflow := rec.(storetypes.ErrorGasOverflow)
+				if _, ok := rec.(storetypes.ErrorOutOfGas); (ok || isOverflow) && oog {
 					result = "oog-propagated"
 				} else {
 					c.Violate("C17.block_not_completed", sig(), "BeginBlocker panicked with %v (scripted out-of-gas in this block: %v)\n%s", rec, oog, firstLines(stack, 12))
